@@ -16,6 +16,7 @@ import hashlib
 import json
 
 import jsonschema
+from typing import Optional  # noqa: F401  (annotations of the synthetic schema classes are resolved in this module)
 
 from rac import base  # noqa: F401  (numpy shim first)
 from rac import contlib as C
@@ -215,6 +216,119 @@ class Checker(C.BaseChecker):
             self.report(st, f"c20:reopen-raises:{st.exc}", f"reopening the container raised {st.exc}: {st.msg}", F_API)
 
 
+# ---------------------------------------------------------------------------------------------
+# extra phase: descendants stored under an ancestor schema, in a family whose constants are overridden
+# ---------------------------------------------------------------------------------------------
+_CONST_FAMILY = {}
+
+
+def const_family():
+    """vk.base <- vk.mid <- vk.leaf; mid overrides the constant field `kind` of base (registered once, not part of the explored alphabets)."""
+    if _CONST_FAMILY:
+        return _CONST_FAMILY
+    from typing import Optional
+
+    from metador_core.schema import MetadataSchema
+    from metador_core.schema.decorators import add_const_fields
+    from metador_core.schema.plugins import PluginPkgMeta, PluginRef
+
+    dist = C._Dist("vk-pkg", "0.1.0")
+    refs = []
+
+    def reg(cls):
+        n, v = cls.Plugin.name, tuple(cls.Plugin.version)
+        schemas._add_ep(C.ep_of(n, v), C._EP(C.ep_of(n, v), cls, dist))
+        refs.append(PluginRef(group="schema", name=n, version=v))
+
+    V = (0, 1, 0)
+
+    @add_const_fields({"kind": "base", "@marker": {"level": 0}})
+    class VkBase(MetadataSchema):
+        class Plugin:
+            name = "vk.base"
+            version = (0, 1, 0)
+
+        f: int
+        note: Optional[str]
+
+    reg(VkBase)
+    schemas._PKG_META["vk-pkg"] = PluginPkgMeta(name="vk-pkg", version=(0, 1, 0), plugins={"schema": list(refs)})
+    BaseV = schemas.get("vk.base", V)
+
+    @add_const_fields({"kind": "mid"}, override=True)
+    class VkMid(BaseV):  # type: ignore
+        class Plugin:
+            name = "vk.mid"
+            version = (0, 1, 0)
+
+        g: Optional[str]
+
+    reg(VkMid)
+    schemas._PKG_META["vk-pkg"] = PluginPkgMeta(name="vk-pkg", version=(0, 1, 0), plugins={"schema": list(refs)})
+    MidV = schemas.get("vk.mid", V)
+
+    @add_const_fields({"@marker": {"level": 2}}, override=True)
+    class VkLeaf(MidV):  # type: ignore
+        class Plugin:
+            name = "vk.leaf"
+            version = (0, 1, 0)
+
+        h: bool = False
+
+    reg(VkLeaf)
+    schemas._PKG_META["vk-pkg"] = PluginPkgMeta(name="vk-pkg", version=(0, 1, 0), plugins={"schema": list(refs)})
+    for r in refs:
+        schemas._ensure_is_loaded(schemas.PluginRef(name=r.name, version=r.version))
+    for n in ("vk.base", "vk.mid", "vk.leaf"):
+        _CONST_FAMILY[n] = schemas.get(n, V)
+    return _CONST_FAMILY
+
+
+def phase_descendant_as_ancestor(chk, rec, d, bounds):
+    """A descendant instance attached under an ancestor schema is stored as given (with the descendant's constants):
+    it must still validate against the embedded JSON Schema of the schema it is filed under."""
+    try:
+        fam = const_family()
+    except Exception as e:  # noqa
+        rec.notes.append(f"constant-override family could not be registered: {type(e).__name__}: {e}")
+        return
+    objs = {"vk.base": fam["vk.base"](f=1), "vk.mid": fam["vk.mid"](f=2, g="g"), "vk.leaf": fam["vk.leaf"](f=3, h=True, note="n")}
+    chain = ["vk.base", "vk.mid", "vk.leaf"]
+    n = 0
+    for kind in ("h5", "ih5"):
+        wd = d / f"desc_{kind}"
+        wd.mkdir()
+        h = C.Handle(kind, wd)
+        try:
+            i = 0
+            for ai, anc in enumerate(chain):
+                for desc in chain[ai:]:
+                    path = f"/n{i}"
+                    i += 1
+                    h.mc[path] = i
+                    h.mc[path].meta[anc] = objs[desc]
+            h.reopen()
+            S = C.scan_toc(h.raw)
+            for o in S["objects"]:
+                name, ver = C.parse_ep(o["ep"])
+                ent = S["schema_groups"].get(o["ep"])
+                case = {"part": "descendant-as-ancestor", "kind": kind, "path": o["path"], "ep": o["ep"]}
+                rec.case(("desc-as-anc", kind, o["path"]), nontrivial=True)
+                if ent is None or ent["jsonschema"] is None:
+                    rec.check(False, "c20:description-missing", f"object {o['path']} of {o['ep']} stored but no embedded JSON Schema", case, F_REG)
+                    continue
+                emb = json.loads(ent["jsonschema"].decode("utf-8"))
+                inst = json.loads(o["bytes"].decode("utf-8"))
+                errs = [f"{'/'.join(map(str, e.absolute_path))}: {e.message[:160]}" for e in jsonschema.Draft7Validator(emb).iter_errors(inst)][:3]
+                rec.check(not errs, f"c20:object-invalid-against-embedded-schema:{name}", f"[{kind}] stored object {o['path']} = {o['bytes'][:160]!r} (a descendant instance filed under {o['ep']}) does not validate against the embedded JSON Schema: {errs}", case, F_JS)
+                n += 1
+        except Exception as e:  # noqa
+            rec.violated(f"c20:descendant-as-ancestor:driver-exception:{type(e).__name__}", f"[{kind}] {type(e).__name__}: {e}", {"part": "descendant-as-ancestor", "kind": kind}, F_REG)
+        finally:
+            h.close()
+    bounds["desc_as_anc"] = f"descendant-as-ancestor: {n} stored objects (3-level family with overridden constants, every descendant under every ancestor, both drivers, after reopen)"
+
+
 RULE = (
     "same histories as C06 (scripted sweep attaching EVERY generated instance of EVERY installed and harness-registered schema on dataset, group and root, "
     "copy/move/delete/reopen/patch boundary; exhaustive bounded searches over the three pruned alphabets toggle/tree/general of the C06 driver; seeded random walks over all families; h5py.File and IH5Record); "
@@ -232,7 +346,23 @@ def run(tier: str, seed: int) -> dict:
             "schemas whose instances cannot be created/serialised on the current tree (see notes: core.table, core.packerinfo) contribute no stored objects",
         ],
         trusted=["jsonschema library (Draft7Validator)"],
+        extra_phase=phase_descendant_as_ancestor,
     )  # fmt: skip
 
 
-replay = C.make_replay(Checker)
+_replay_history = C.make_replay(Checker)
+
+
+def replay(case: dict):
+    if case.get("part") == "descendant-as-ancestor":
+        from rac.base import Recorder, tmpdir
+
+        C.install_families()
+        rec = Recorder("C20", "c20", max_violations=50)
+        with tmpdir() as d:
+            phase_descendant_as_ancestor(None, rec, d, {})
+        hit = [v for v in rec.violations if v["replay"]["case"].get("path") == case.get("path") and v["replay"]["case"].get("kind") == case.get("kind")] or rec.violations
+        if hit:
+            return True, f"{hit[0]['signature']}: {hit[0]['what']}"[:600]
+        return False, "descendant-as-ancestor phase: every stored object validates against its embedded schema"
+    return _replay_history(case)
